@@ -390,4 +390,49 @@ def run(facts, tier, ctx):
         for f in r.findings:
             f.rule = "FRAMING"
         out.append(r)
+    # --------------------------------------------------------------- IMPLICIT
+    # implicit panic sites (bounds checks, overflow, shifts, division) met while summarising parser::stream with every parser
+    # closure and effect-free callee inlined: each is discharged from the facts on the paths to it (field widths read, guards
+    # with error returns, loop ranges, payload bounds of the code enums over all their construction sites) or by a one-site
+    # SAFE entry whose reason rests on a data-type invariant.
+    import json as _json
+    from . import lib_implicit as I
+    from . import lib_effect as E
+    im = RuleResult("IMPLICIT", "implicit panic sites reachable from parser::stream are discharged")
+    try:
+        recs, aggs = I.collect(facts, stream, noinline=[r"BitRepr>::"], reader=True, want_aggs=True)
+        fsz = [x for x in facts.body_list if x.id.endswith("BlockSizeSpec::from_size")]
+        for b in fsz:
+            _r, g = I.collect(facts, b, want_aggs=True)
+            aggs += g
+    except E.Undecided as e:
+        im.fail(Finding("IMPLICIT", stream.id, "undecided", 0, stream.loc(), "cannot summarise the stream parser: %s" % e))
+        out.append(im)
+        return out
+    DTP = "component::datatype::"
+    fb, _sites = I.field_bounds(facts, aggs, {"Pow2Mul576": DTP + "BlockSizeSpec", "Pow2Mul256": DTP + "BlockSizeSpec"})
+    with open(os.path.join(os.path.dirname(os.path.dirname(os.path.abspath(__file__))), "oracle", "implicit_safe.json")) as fh:
+        safe_i = _json.load(fh).get(PROPERTY, {})
+    ords = I.number_sites(facts, recs)
+    verdict = {}
+    for r in recs:
+        key = I.site_key(r, ords)
+        why = I.Prover(facts, r["assume"], fb).prove(r["goal"])
+        prev = verdict.get(key)
+        if prev is None or (prev[0] and not why):
+            verdict[key] = (why, r)
+    used_safe = set()
+    for key, (why, r) in sorted(verdict.items()):
+        if why:
+            im.ok({"site": r["site"], "function": r["body"], "kind": r["msg"], "because": why})
+        elif key in safe_i:
+            used_safe.add(key)
+            im.ok({"site": r["site"], "function": r["body"], "kind": r["msg"], "because": "SAFE: " + safe_i[key]})
+        else:
+            im.fail(Finding("IMPLICIT", r["body"], "%s#%s" % (r["msg"], key.rsplit("|", 1)[1]), 0, r["site"],
+                            "%s at %s is reachable from parser::stream on untrusted input and nothing on the paths to it "
+                            "establishes that %s" % (r["msg"], r["site"], I.show_goal(r["goal"])[:200])))
+    im.notes.append("payload bounds %s; SAFE entries used: %d of %d" % (fb, len(used_safe), len(safe_i)))
+    im.require_floor(30, "implicit panic sites on the stream-parse path")
+    out.append(im)
     return out
